@@ -31,6 +31,10 @@ fn fam_limb_uniform(ctx: &Ctx) {
     for j in 1..16 {
         ms.extend([1u64 << j, (1 << j) - 1, (1 << j) + 1]);
     }
+    if ctx.thorough() {
+        // thorough: EVERY modulus below 2^16, each against ALL one-/two-byte answers (4.3e9 scripted draws)
+        ms.extend(1..65536u64);
+    }
     ms.sort();
     ms.dedup();
     ms.retain(|&m| m < 65536 && m > 0);
@@ -90,6 +94,11 @@ fn fam_uint_uniform<const N: usize>(ctx: &Ctx) {
     let mut ms: Vec<u64> = vec![1, 2, 3, 5, 255, 256, 257, 4093, 4095];
     for j in 1..12 {
         ms.extend([1u64 << j, (1 << j) - 1, (1 << j) + 1]);
+    }
+    if ctx.thorough() {
+        // thorough: EVERY modulus up to 4096, and the 16-bit boundary moduli (all 2^16 low-word answers each)
+        ms.extend(1..=4096u64);
+        ms.extend([1 << 15, (1 << 15) + 1, (1 << 16) - 1, 40000, 65521]);
     }
     ms.sort();
     ms.dedup();
